@@ -1,9 +1,10 @@
 #!/bin/bash
 # usage: benign_try.sh <lane-dir> <k> <R> -- development aid (false-alarm test): applies the behaviour-preserving change
-# /tmp/benign/<k>.out/<R>/patch.diff to a scratch copy of the repository and runs every quick check mapped to the files it
-# touches (VF_REPO). Any exit status other than 0 is a false alarm (or a harness that no longer builds) to be fixed in /verif.
+# /tmp/benign/<k>.out/<R>/patch.diff to a scratch copy of the repository and runs the quick checks most closely tied to the
+# files it touches (VF_REPO). Any exit status other than 0 is a false alarm (or a harness that no longer builds) to be fixed in /verif.
 lane=$1; k=$2; r=$3; p=/tmp/benign/$k.out/$r/patch.diff
-declare -A MAP=( [kcp.go]="C04 C02 C01 C03 C05 C10 C18 C12 C11" [fec.go]="C07 C09 C05 C16 C10 C15 C12 C19" [autotune.go]="C16 C05" [sess.go]="C06 C11 C19 C09 C10 C01 C15 C14 C13 C05 C07" [crypt.go]="C08 C14 C06" [entropy.go]="C14 C09" [ringbuffer.go]="C20 C04 C01" [bufferpool.go]="C15 C05" [timedsched.go]="C17 C14 C15 C02" [snmp.go]="C14 C18" [readloop.go]="C11" [tx.go]="C15 C09" )
+declare -A MAP=( [kcp.go]="C04 C02 C01 C05 C12" [fec.go]="C07 C09 C16 C05" [autotune.go]="C16" [sess.go]="C06 C11 C13 C14 C01 C19" [crypt.go]="C08 C14" [entropy.go]="C14" [ringbuffer.go]="C20 C04" [bufferpool.go]="C15" [timedsched.go]="C17 C14" [snmp.go]="C14 C18" [readloop.go]="C11" [tx.go]="C15" )
+[ -n "$BCHECKS" ] && for f in "${!MAP[@]}"; do MAP[$f]="$BCHECKS"; done
 cd $lane && git checkout -q -- . && git apply $p || { echo "$k/$r: patch does not apply"; exit 2; }
 checks=""; for f in $(git diff --name-only); do checks="$checks ${MAP[$f]}"; done
 checks=$(echo $checks | tr ' ' '\n' | sort -u | tr '\n' ' ')
